@@ -20,7 +20,7 @@ ITEM_CLASSES = {'ItemDelete', 'ItemInsert', 'ItemMoveMultiple', 'ItemReplace', '
                 'EAItemDelete', 'EAItemInsert', 'EAItemSwap', 'EAItemMove'}
 
 
-def rich_ro(rng, n_stories):
+def rich_ro(rng, n_stories, placeholders=False):
     """nested metadata, attributes, mixed text and tails, repeated item IDs across stories,
     several mosExternalMetadata blocks"""
     kids = ro_head()
@@ -43,6 +43,11 @@ def rich_ro(rng, n_stories):
         kids.append(st)
         if rng.random() < 0.4:
             kids.append(E('roTrigger', text='trig %d' % k, mode='auto'))
+        if placeholders and k == 0:
+            # placeholder stories with a blank / missing storyID, holding items with the usual IDs and a blank one
+            kids.append(story(None, body=[item(gens.ITEM_IDS[0], slug='in-blank'), item(None, slug='blank-item'), p('text')], slug='Blank'))
+            if placeholders > 1:
+                kids.append(story(ABSENT, body=[item(gens.ITEM_IDS[0], slug='in-noid')], slug='NoId'))
     return ro_create(kids)
 
 
@@ -81,14 +86,14 @@ class Check(AddCheck):
     pid = 'C03'
     needs_claims = False
     rule = ('rich running orders (nested metadata, attributes, mixed text and tails, two mosExternalMetadata blocks, repeated '
-            'item IDs across stories, trailing triggers) x random story-level and item-level messages with references in '
+            'item IDs across stories, trailing triggers, placeholder stories with blank or missing storyID holding blank-ID items) x random story-level and item-level messages with references in '
             '{existing, unknown, blank, absent}; the exhaustive small message spaces of C01/C02; roMetadataReplace with same / '
             'other / unknown / missing / blank / repeated mosSchema. obs = the complete resulting tree. distinct by (class, outcome, layout)')
 
     def gen(self, tier, rng):
         n = 60 if tier == 'quick' else 600
         for r in range(n):
-            ro = to_text(rich_ro(rng, rng.randrange(1, 5)), pretty=(r % 3 == 0))
+            ro = to_text(rich_ro(rng, rng.randrange(1, 5), placeholders=(1 if r % 4 == 1 else 2 if r % 8 == 3 else 0)), pretty=(r % 3 == 0))
             sids, items = gens.state_ids(ro)
             k = [0]
 
@@ -101,8 +106,8 @@ class Check(AddCheck):
                 yield {'ro': ro, 'msg': to_text(doc, pretty=rng.random() < 0.2), 'meta': {'cls': doc[3].tag, 'n': len(sids), 'layout': 'rich'}}
         yield from metadata_cases(rng)
         nm = 2 if tier == 'quick' else 3
-        yield from gens.merge_cases_story(n_max=nm, max_src=2, layouts=['between', 'trailing'])
-        yield from gens.merge_cases_item(n_max=nm, max_src=2, para_layouts=['between', 'trailing'])
+        yield from gens.merge_cases_story(n_max=nm, max_src=2, layouts=['between', 'trailing', 'blankids', 'noids'])
+        yield from gens.merge_cases_item(n_max=nm, max_src=2, para_layouts=['between', 'trailing', 'blankids', 'noids'])
         yield from gens.merge_cases_other()
 
     def obs(self, o):
@@ -130,7 +135,7 @@ class Check(AddCheck):
         if cls in ('ReadyToAir', 'RunningOrderEnd'):
             return None if rc0 == rc1 else '%s changed the running-order content' % cls
         if cls in STORY_CLASSES:
-            named = set(map(repr, ids_in(b, 'storyID')))
+            named = {repr(i) for i in ids_in(b, 'storyID') if i is not None}    # a blank reference names nothing
 
             def untouched(rc):
                 return [k for k in rc[4] if not (k[0] == 'story' and repr(X.child_text(k, 'storyID')) in named)]
@@ -148,7 +153,7 @@ class Check(AddCheck):
                 if j != idx and a != c:
                     return '%s addressed story %r but changed child %d of roCreate (%s)' % (cls, sid, j, a[0])
             if idx is not None:
-                named = set(map(repr, ids_in(b, 'itemID')))
+                named = {repr(i) for i in ids_in(b, 'itemID') if i is not None}
                 s0, s1 = rc0[4][idx], rc1[4][idx]
 
                 def untouched_i(s):
